@@ -914,6 +914,48 @@ def r89_event_type_identity(ctx):
     ctx.floor('R8.9', 'EventType comparison slots examined', n, 2)
 
 
+def _adapter_equality(prog, ci, eq):
+    """name of the field F when `eq` is `isinstance(other, C) and self.F == other.F` (or `is`; or the guard-clause form), F is bound only in
+    __init__ and there directly from a parameter, and notify() calls self.F(..) or self.F.notify(..); else None"""
+    if len(eq.args.args) != 2:
+        return None
+    o = eq.args.args[1].arg
+    body = [b for b in eq.body if not (isinstance(b, ast.Expr) and isinstance(b.value, ast.Constant))]
+    test = None
+    if len(body) == 1 and isinstance(body[0], ast.Return) and isinstance(body[0].value, ast.BoolOp) and isinstance(body[0].value.op, ast.And) \
+            and len(body[0].value.values) == 2:
+        guard, test = body[0].value.values
+    elif len(body) == 2 and isinstance(body[0], ast.If) and not body[0].orelse and len(body[0].body) == 1 and isinstance(body[0].body[0], ast.Return) \
+            and isinstance(body[0].test, ast.UnaryOp) and isinstance(body[0].test.op, ast.Not) and isinstance(body[1], ast.Return):
+        guard, test = body[0].test.operand, body[1].value
+        rv = body[0].body[0].value
+        if not (isinstance(rv, ast.Constant) and rv.value is False or isinstance(rv, ast.Name) and rv.id == 'NotImplemented'):
+            return None
+    else:
+        return None
+    if unparse(guard) not in (f'isinstance({o}, {ci.name})', f'type({o}) is {ci.name}', f'type({o}) is type(self)', f'type(self) is type({o})'):
+        return None
+    if not (isinstance(test, ast.Compare) and len(test.ops) == 1 and isinstance(test.ops[0], (ast.Eq, ast.Is)) and is_self_attr(test.left)
+            and unparse(test.comparators[0]) == f'{o}.{test.left.attr}'):
+        return None
+    F = test.left.attr
+    init = ci.methods.get('__init__')
+    if init is None:
+        return None
+    params = {a.arg for a in init.args.args[1:]}
+    stores = [(m, x) for m in list(ci.methods.values()) + list(ci.setters.values()) for x in ast.walk(m)
+              if isinstance(x, ast.Attribute) and isinstance(x.ctx, (ast.Store, ast.Del)) and x.attr == F]
+    if len(stores) != 1 or stores[0][0] is not init:
+        return None
+    asg = [a for a in ast.walk(init) if isinstance(a, ast.Assign) and any(t is stores[0][1] for t in a.targets)]
+    if not (asg and isinstance(asg[0].value, ast.Name) and asg[0].value.id in params):
+        return None
+    nt = ci.methods.get('notify')
+    if nt is None or not any(isinstance(c, ast.Call) and (unparse(c.func) == f'self.{F}' or unparse(c.func) == f'self.{F}.notify') for c in ast.walk(nt)):
+        return None
+    return F
+
+
 def r89_listener_identity(ctx, rule='R8.9'):
     """Subscriptions are kept in lists and looked up with `in` / `remove`, i.e. with `==`: an object that can be subscribed must compare by
     identity, or two different subscribers that happen to be equal are taken for one (the second is never subscribed, removing one removes
@@ -936,6 +978,12 @@ def r89_listener_identity(ctx, rule='R8.9'):
             if '__eq__' in kc.methods:
                 culprit = (kc, kc.methods['__eq__'])
                 break
+        adapter = _adapter_equality(prog, culprit[0], culprit[1]) if culprit is not None and culprit[0].name == cname else None
+        if adapter:
+            # an adapter: its equality IS that of the one object it wraps (bound once, in the constructor, from a parameter) and notify hands the
+            # event to that object: two adapters of the same subscriber are the same subscription
+            ctx.ob(rule, cname, True, sample=f'{cname}: an adapter -- __eq__ compares the one wrapped object self.{adapter} (bound once in __init__), which notify() forwards to')
+            continue
         ctx.ob(rule, cname, culprit is None, sample=f'{cname}: __eq__ resolves to ' + (f'{culprit[0].name}.__eq__ (value based)' if culprit else 'identity'))
         if culprit is not None:
             ctx.finding(rule, f'{cname}:value-equality', ci, ci.node,
